@@ -327,7 +327,8 @@ def check(mod_name: str, tier: str, seed: int, budget: float | None = None) -> i
     batch_size = int(getattr(mod, "BATCH", 200))
     ctx = mp.get_context("fork")
     enum = getattr(mod, "enumerate_cases", None)
-    with cf.ProcessPoolExecutor(max_workers=NPROC, mp_context=ctx) as ex:
+    ex = cf.ProcessPoolExecutor(max_workers=NPROC, mp_context=ctx)
+    try:
         pending = set()
         next_index = 0
         enum_iter = None
@@ -395,9 +396,18 @@ def check(mod_name: str, tier: str, seed: int, budget: float | None = None) -> i
                     fut.cancel()
                 break
             submit_more()
-        if violation or harness_error:
-            _STOP.set()
-            ex.shutdown(wait=False, cancel_futures=True)
+    finally:
+        # never leave workers behind: stop them ourselves (the executor's own
+        # shutdown is asynchronous and this process ends with os._exit)
+        _STOP.set()
+        procs = list(getattr(ex, "_processes", {}).values())
+        ex.shutdown(wait=False, cancel_futures=True)
+        t_kill = _now() + 5
+        for p in procs:
+            p.join(max(0.0, t_kill - _now()))
+        for p in procs:
+            if p.is_alive():
+                p.kill()
 
     # in-check determinism sample: re-execute a few runs in this (different) process
     if first_batch_digests and not harness_error:
